@@ -272,6 +272,13 @@ def run(ctx):
     cases = ['', 'a', '"', "'", '\\', '\n', '\r', '\t', '\x00', '\x7f', '\x80', ' ', '\ud800', '\udfff', '￿',
              'a\\u0041', '\\"', 'ab"c', '\\\\u0022']
     ctx.diff_unhooked(sys.modules[__name__], cases)
+    # the literal in decompiled source: a sequence of one-method DEX files in one process, every string at the same
+    # string_ids index as its predecessor (enumeration of concrete strings through the real pipeline, no solver query)
+    for k, what in source_problems(LOW + HIGH)[:3]:
+        ctx.concrete_violation(dict(source='sequence', upto=k), label='get_source', what=what)
+    ctx.validated += len(LOW + HIGH)
+    ctx.functions_encoded = FUNCS + ['androguard.decompiler.opcode_ins.conststring', 'DvMethod.get_source (literal of a const-string)']
+    ctx.bounds['source_literals'] = '%d + %d fixed strings, each in its own DEX file, decompiled one after the other' % (len(LOW), len(HIGH))
     jobs = [(0, None), (1, None)]
     jobs += [(2, c) for c in CLASSES]
     if ctx.thorough:
@@ -280,12 +287,74 @@ def run(ctx):
     ctx.expect_reach(['len0', 'len1', 'len2'])
 
 
+# ------------------------------------------------------------------ the literal as DvMethod.get_source prints it
+LOW = ['', ' ', '"', "'", '#"#', '\x00', '\x001', '\x0012', '\x007x', '\t\r\n', '0\\u0041', '5\\', '!\\"', '\x08\x0c', '"""', "''"]
+HIGH = ['zz', '\x7f', 'z"', 'z\\', 'z\x00', 'z\x007', 'z\n', '\x80', '\xff\x00', '\u07ff', '\u0800', '\u2028', '\ud7ff', '\ue000', '\uffff',
+        '\U00010000', '\U0010ffff', 'é"\\', 'z\\u0022', '\ud800', '\udfff z']
+
+
+def literal_dex(text):
+    """one class with  static String f() { return <text>; }  (const-string v0 ; return-object v0)"""
+    from .. import dexasm
+    from ..dexasm import Cls, Mth, Code
+    m = Mth('f', 'Ljava/lang/String;', (), 0x9, Code(1, 0, 0, lambda P: [0x001a, P.string(text), 0x0011]))
+    blob, P, L = dexasm.assemble([Cls('LT;', dmethods=[m])])
+    return blob, P.s_idx[text]
+
+
+def source_literals(blob):
+    """string literals in the decompiled source of LT;->f, via the real DEX / Analysis / DvMethod"""
+    from androguard.core import dex as dexmod
+    from androguard.core.analysis import analysis
+    from androguard.decompiler import decompile
+    d = dexmod.DEX(blob)
+    dx = analysis.Analysis(d)
+    m = [x for x in d.get_encoded_methods() if x.get_name() == 'f'][0]
+    dv = decompile.DvMethod(dx.get_method(m))
+    dv.process()
+    src = dv.get_source()
+    line = [l for l in src.splitlines() if 'return' in l]
+    if len(line) != 1:
+        return None, src
+    body = line[0].strip()
+    if not (body.startswith('return ') and body.endswith(';')):
+        return None, src
+    return body[len('return '):-1], src
+
+
+def source_problems(texts):
+    """decompile the methods one after the other in this process; each literal must denote its own string"""
+    bad = []
+    for k, t in enumerate(texts):
+        blob, idx = literal_dex(t)
+        try:
+            lit, src = source_literals(blob)
+        except Exception as e:
+            bad.append((k, 'decompiling the method raised %r' % (e,)))
+            continue
+        if lit is None:
+            bad.append((k, 'no single return statement in %r' % src))
+            continue
+        try:
+            units = java_unescape_concrete(lit)
+        except LexError as e:
+            bad.append((k, 'source literal %s is not a well-formed Java literal (%s)' % (lit, e)))
+            continue
+        if units != utf16(t) or any(not (0x20 <= ord(ch) < 0x7f) for ch in lit):
+            bad.append((k, 'string %r (string_ids index %d) is printed as %s, which denotes %s' % (t, idx, lit, [hex(u) for u in units])))
+    return bad
+
+
 def concrete(c):
     from androguard.decompiler import writer
     return writer.string(c)
 
 
 def replay(w):
+    if w.get('source'):
+        texts = (LOW + HIGH)[:w['upto'] + 1]
+        bad = [b for b in source_problems(texts) if b[0] == w['upto']]
+        return bool(bad), 'after decompiling %d other one-method DEX files: %s' % (w['upto'], bad[0][1] if bad else 'literal is right')
     from androguard.decompiler import writer
     s = ''.join(chr(c) for c in w['codepoints'])
     try:
